@@ -21,6 +21,7 @@ RULE = (
     'a cell face or contains a hostile coordinate; distinct = SHA-1 of the input array.'
 )
 RULE += ' Added in rounds 8-10: slices / split parts not starting at frame 0 examined as trajectories of their own; chunks joined with extend() (the second chunk may repeat the previous last frame); a sixth of the cases shifted by up to thousands of cells.'
+RULE += ' Round 14: sub-trajectories also with a stride (every 2nd / 3rd / 5th frame).'
 RULE += ' Round 13: a fifth of the walks also as variable-cell trajectories (one lattice per frame): positions, displacements, cumulative displacements, single-frame access.'
 RULE += ' Round 12 (thorough tier; quick with GV_HUGE=1): one trajectory of 11.3-12 million atom-frames (more than 256 MiB of coordinates): displacement bound, running sum against every frame, cumulative displacements against the unwrapped walk, position round trip.'
 ASSUMPTIONS = [
@@ -248,8 +249,20 @@ def run_unit(unit, rng, ctx):
         a_ = int(rng.integers(1, T - 1))
         b_ = int(rng.integers(a_ + 1, T + 1))
         if rng.integers(2):
-            part, Us = t1[a_:b_], U[a_:b_]
-            origin = f'[{a_}:{b_}]'
+            k_ = int(rng.choice([1, 1, 2, 3, 5]))
+            part, Us = t1[a_:b_:k_], U[a_:b_:k_]
+            origin = f'[{a_}:{b_}:{k_}]'
+            if k_ > 1 and len(Us) >= 1:
+                # every k-th frame: the steps between the selected frames are their minimum-image differences
+                st_k = np.diff(Us, axis=0, prepend=Us[:1])
+                mi_k = st_k - np.round(st_k)
+                if float(np.abs(np.abs(mi_k) - 0.5).min()) < 1e-9:
+                    # a summed step within rounding of half a cell has two equally short images: not decidable
+                    ctx.count('strided_sub_trajectories_skipped(step at half a cell)')
+                    Us = None
+                else:
+                    Us = Us[:1] + np.cumsum(mi_k, axis=0)
+                    ctx.count('strided_sub_trajectories')
         else:
             n_ = int(rng.integers(2, min(5, T - 1) + 1))
             parts_ = t1.split(n_)
